@@ -1,5 +1,7 @@
 package redisemu
 
+import "math"
+
 func setAddCommon(ctx *cmdContext, args map[string]any, options bitflags) (output respValue, err error) {
 	keyName := args["key"].(string)
 	members := args["member"].([]any)
@@ -196,6 +198,12 @@ func fnSMove(ctx *cmdContext, args map[string]any) (output respValue, err error)
 func fnSRandMember(ctx *cmdContext, args map[string]any) (output respValue, err error) {
 	keyName := args["key"].(string)
 	count64, countSpecified := args["count"].(int64)
+
+	if countSpecified && count64 == math.MinInt64 {
+		// -count cannot be represented (Redis limits the argument to -LONG_MAX..LONG_MAX)
+		output.data = respErrorString("ERR value is out of range")
+		return
+	}
 
 	var countPtr *int
 	count := int(count64)
